@@ -2112,6 +2112,29 @@ class SymEval:
         keeps the opaque value and the analysis ends without a verdict)."""
         A = self.A
         want_max = q.endswith(('max', 'maximum', 'fmax'))
+        if any(isinstance(x, SArray) for x in args) and q.startswith('numpy.'):
+            # elementwise, with broadcasting of a scalar operand
+            arr = next(x for x in args if isinstance(x, SArray))
+            out = SArray(arr.shape, {}, None, arr.sample)
+            for i in arr.indices():
+                pair = [x.get(i) if isinstance(x, SArray) else x for x in args]
+                r_ = self._bound_by_const(q, pair)
+                if r_ is None:
+                    return None
+                out.entries[i] = r_
+            return out
+
+        def cnum(v_):
+            if isinstance(v_, bool):
+                return None
+            if isinstance(v_, (int, float, Fraction)):
+                return Fraction(v_) if not isinstance(v_, float) else Fraction(repr(v_))
+            if isinstance(v_, Rat) and A.is_const(v_):
+                return A.const_of(v_)
+            return None
+        c0, c1 = cnum(args[0]), cnum(args[1])
+        if c0 is not None and c1 is not None:
+            return A.const(max(c0, c1) if want_max else min(c0, c1))
 
         def num(v_):
             if isinstance(v_, bool):
